@@ -114,6 +114,11 @@ def verdict(kind_of_constraint, cvalue, col, epsilon, type_checking,
             return m >= b if k == 'min' else m <= b
         m = min(nn) if k == 'min' else max(nn)
         eps = epsilon
+        if isinstance(value, str):
+            # text: no tolerance applies; open excludes the bound itself
+            if precision == 'open':
+                return m > value if k == 'min' else m < value
+            return m >= value if k == 'min' else m <= value
         if precision == 'closed':
             return m >= value if k == 'min' else m <= value
         if precision == 'open':
